@@ -642,12 +642,17 @@ def conclude(pm, tier, seed, results, t0, extra=None, run_jobs=None, opts=None):
   # group: one replay per (case, cfg, model)
   # phase 1: descriptors; phase 2: one native process; phase 3: evaluate clauses on real output
   prepared = []
+  body_prepared = []
   for g in refuted:
     case = pm.CASES[g['_case']]
     g['replay'] = None
     try:
       if case.contract_key is not None:
         prepared.append((g, _replay_prepare(pm, g['_case'], g['_cfg'], g.get('model'))))
+      elif hasattr(case, 'replay_desc'):
+        d = case.replay_desc(g['_cfg'], g.get('model'), g)
+        if d is not None:
+          body_prepared.append((g, case, d))
       elif hasattr(case, 'replay'):
         g['replay'] = case.replay(g['_cfg'], g.get('model'), g)
     except Exception as e:  # pylint: disable=broad-except
@@ -655,12 +660,21 @@ def conclude(pm, tier, seed, results, t0, extra=None, run_jobs=None, opts=None):
   uniq = {}
   for g, d in prepared:
     uniq.setdefault(json.dumps(d, sort_keys=True, default=str), d)
+  for g, case, d in body_prepared:
+    uniq.setdefault(json.dumps(d, sort_keys=True, default=str), d)
   keys = list(uniq)
   try:
     nats = dict(zip(keys, run_native([uniq[k] for k in keys]))) if keys else {}
   except Exception as e:  # pylint: disable=broad-except
     nats = {}
     errors.append({'case': 'replay', 'cfg': {}, 'error': 'native replay failed to run: %s' % e})
+  for g, case, d in body_prepared:
+    k = json.dumps(d, sort_keys=True, default=str)
+    if k in nats:
+      try:
+        g['replay'] = case.replay_eval(g['_cfg'], g.get('model'), g, d, nats[k])
+      except Exception as e:  # pylint: disable=broad-except
+        g['replay'] = {'error': '%s: %s' % (type(e).__name__, e)}
   for g, d in prepared:
     k = json.dumps(d, sort_keys=True, default=str)
     if k in nats:
